@@ -295,15 +295,24 @@ impl BinWrite for SmallType {
         endian: binrw::Endian,
         _args: Self::Args<'_>,
     ) -> binrw::BinResult<()> {
+        // scale first, then narrow: a duration that does not fit the 32 bit field is an error
+        let pos = writer.stream_position()?;
+        let scaled = |uval: &Duration, scale: u128| {
+            u32::try_from(uval.as_millis() / scale).map_err(|_| binrw::Error::AssertFail {
+                pos,
+                message: "Could not convert to duration without loss".into(),
+            })
+        };
+
         let (discrim, uval) = match self {
             SmallType::None => (0u8, 0u32),
-            SmallType::Ssp(uval) => (1u8, uval.as_millis() as u32 / 10),
-            SmallType::Ssg(uval) => (2u8, uval.as_millis() as u32 / 10),
+            SmallType::Ssp(uval) => (1u8, scaled(uval, 10)?),
+            SmallType::Ssg(uval) => (2u8, scaled(uval, 10)?),
             SmallType::Vta(uval) => (3u8, uval.into()),
             SmallType::Tms(uval) => (4u8, *uval as u32),
-            SmallType::Stp(uval) => (5u8, uval.as_millis() as u32 / 10),
-            SmallType::Rtp(uval) => (6u8, uval.as_millis() as u32 / 10),
-            SmallType::Nli(uval) => (7u8, uval.as_millis() as u32),
+            SmallType::Stp(uval) => (5u8, scaled(uval, 10)?),
+            SmallType::Rtp(uval) => (6u8, scaled(uval, 10)?),
+            SmallType::Nli(uval) => (7u8, scaled(uval, 1)?),
             SmallType::Alc(uval) => (8u8, uval.bits()),
             SmallType::Lcs(uval) => (9u8, uval.bits()),
             SmallType::Lcl(uval) => (10u8, uval.bits()),
